@@ -3,6 +3,7 @@ package proxy
 import (
 	"errors"
 	"sort"
+	"time"
 
 	"github.com/hashicorp/memberlist"
 	"go.temporal.io/server/api/adminservice/v1"
@@ -421,7 +422,7 @@ func verifHarness_C09_route() {
 	source := history.ClusterShardID{ClusterID: 1, ShardID: 1}
 	hasLocal := verifChoose("local-channel", 2) == 1
 	ownerKnown := verifChoose("remote-owner-known", 2) == 1
-	peerStream := verifChoose("peer-stream", 3) // 0 absent, 1 present, 2 present but broken
+	peerStream := verifChoose("peer-stream", 4) // 0 absent, 1 present, 2 present but broken, 3 the very first stream with that peer registers while the hand-off is waiting for it
 	localCh := make(chan RoutedMessage, 4)
 	if hasLocal {
 		a.sm.SetRemoteSendChan(target, localCh)
@@ -432,22 +433,40 @@ func verifHarness_C09_route() {
 		w.merge(b, a)
 	}
 	ps := &c9PeerStream{fail: peerStream == 2}
-	if peerStream != 0 {
-		snd := &intraProxyStreamSender{logger: log.NewNoopLogger(), shardManager: a.sm, peerNodeName: b.name,
-			targetShardID: target, sourceShardID: source, sourceStreamServer: ps}
+	snd := &intraProxyStreamSender{logger: log.NewNoopLogger(), shardManager: a.sm, peerNodeName: b.name,
+		targetShardID: target, sourceShardID: source, sourceStreamServer: ps}
+	if peerStream == 1 || peerStream == 2 {
 		a.sm.intraMgr.RegisterSender(b.name, target, source, snd)
 	}
 	msg := &RoutedMessage{SourceShard: source, Resp: &adminservice.StreamWorkflowReplicationMessagesResponse{
 		Attributes: &adminservice.StreamWorkflowReplicationMessagesResponse_Messages{
 			Messages: &replicationv1.WorkflowReplicationMessages{ExclusiveHighWatermark: 5}}}}
-	ok := a.sm.DeliverMessagesToShardOwner(target, msg, channel.NewShutdownOnce(), log.NewNoopLogger())
+	var ok bool
+	if peerStream == 3 {
+		// the forward waits (up to 2s, polling) for the owner's stream to register; it registers 15ms in
+		finished := false
+		go func() {
+			ok = a.sm.DeliverMessagesToShardOwner(target, msg, channel.NewShutdownOnce(), log.NewNoopLogger())
+			finished = true
+		}()
+		verifQuiesce()
+		a.sm.intraMgr.RegisterSender(b.name, target, source, snd)
+		for k := 0; k < 12 && !finished; k++ {
+			verifAdvance(250 * time.Millisecond)
+			verifQuiesce()
+		}
+		verifAssert(finished, "hand-off-returns")
+		verifReach("peer-stream-registered-during-the-wait")
+	} else {
+		ok = a.sm.DeliverMessagesToShardOwner(target, msg, channel.NewShutdownOnce(), log.NewNoopLogger())
+	}
 	recipients := len(localCh) + ps.got
 	verifReach("routed")
 	verifAssert(recipients <= 1, "message-never-delivered-twice")
 	verifAssert(ok == (recipients == 1), "reported-delivered-iff-exactly-one-recipient-got-it")
 	if hasLocal {
 		verifAssert(len(localCh) == 1 && ps.got == 0, "local-stream-preferred-over-remote-owner")
-	} else if ownerKnown && peerStream == 1 {
+	} else if ownerKnown && (peerStream == 1 || peerStream == 3) {
 		verifAssert(ps.got == 1 && ok, "forwarded-to-the-known-remote-owner")
 	} else {
 		verifAssert(!ok && recipients == 0, "reported-undelivered-when-no-recipient-exists")
